@@ -190,6 +190,7 @@ def norm_inst(inst):
         q = dict(p)
         for k in ("items", "values", "ins", "params", "outs", "streams"):
             q.setdefault(k, [])
+        q["joinports"] = sorted((q.get("joins") or {}).keys())
         q.setdefault("cores", 1)
         q["ins"] = sorted(q["ins"]); q["params"] = sorted(q["params"])
         procs.append(q)
@@ -404,9 +405,15 @@ def normalize_flow(events, inst, end):
     for p in inst["procs"]:
         if p["kind"] in ("src", "psrc"):
             emit_outs.add(p["name"] + ".out")
+        if p["kind"] == "substream":
+            emit_outs.add(p["name"] + ".substream")
     for f in inst["feeds"]:
         emit_outs.add(f["to"] + "<feed")
     out = [dict(e="header")]
+    carriers = {}       # path of a carrier IP (random temp name) -> "carrier:<substream process>"
+    def item_of(ev):
+        if "path" not in ev: return ev["val"]
+        return carriers.get(ev["path"], path_id(ev["path"]))
     g2task = {}
     finished = set()
     relays = {p["name"]: p["params"][0] for p in inst["procs"] if p["kind"] == "pcomb" and len(p["params"]) == 1}
@@ -440,7 +447,9 @@ def normalize_flow(events, inst, end):
         elif e == "run.start":
             out.append(dict(e="run.start"))
         elif e in ("send.begin", "send.done", "sendp.begin", "sendp.done"):
-            item = path_id(ev["path"]) if "path" in ev else ev["val"]
+            if "path" in ev and ev["from"].endswith(".substream"):
+                carriers[ev["path"]] = "carrier:" + ev["from"].rsplit(".", 1)[0]
+            item = item_of(ev)
             frm = feedname(ev["from"], ev["to"])
             if e.endswith(".begin") and ev["to"] in relay_in:
                 relay_got[relay_in[ev["to"]]].append(item)
@@ -477,8 +486,10 @@ def normalize_flow(events, inst, end):
             out.append(dict(e="proc.start", proc=ev["proc"], cores=ev["cores"]))
         elif e in ("ct.recv", "ct.recvp"):
             closed = bool(ev.get("closed", False))
-            item = "" if closed else (path_id(ev["path"]) if "path" in ev else ev["val"])
+            item = "" if closed else item_of(ev)
             out.append(dict(e="ct.recv", proc=ev["proc"], port=ev["proc"] + "." + ev["port"], closed=closed, item=item))
+        elif e == "ct.sub":
+            out.append(dict(e="ct.sub", proc=ev["proc"], port=ev["proc"] + "." + ev["port"], item=path_id(ev["path"])))
         elif e == "task.new":
             proc, key = task_key(ev["task"])
             outs = {}
@@ -501,7 +512,7 @@ def normalize_flow(events, inst, end):
         elif e in ("ct.end", "tasks.closed", "proc.exit"):
             out.append(dict(e=e, proc=ev["proc"]))
         elif e == "sink.recv":
-            out.append(dict(e="sink.recv", port=sinkproc + ".sink_in", item=path_id(ev["path"])))
+            out.append(dict(e="sink.recv", port=sinkproc + ".sink_in", item=item_of(ev)))
         elif e == "sink.recvp":
             out.append(dict(e="sink.recv", port=sinkproc + ".param_sink_in", item=ev["val"]))
         elif e == "fail":
@@ -515,6 +526,16 @@ def normalize_flow(events, inst, end):
             pth = ev["path"][:-5] if ev["path"].endswith(".fifo") else ev["path"]
             out.append(dict(e=e, proc=ev["proc"], item=path_id(pth)))
         # everything else (slots.*, audit.*, fin.*, ...) belongs to other acceptors
+    # processes with an explicit command (no helper, hence no line of their own in the command log): their executions are
+    # counted from the cmd.start hook
+    argprocs = {p["name"] for p in inst["procs"] if p.get("arg")}
+    if argprocs:
+        end = dict(end); ex = dict(end.get("execs") or {})
+        for ev in events:
+            if ev["ev"] == "cmd.start":
+                proc, key = task_key(ev["task"])
+                if proc in argprocs: ex[key] = ex.get(key, 0) + 1
+        end["execs"] = ex
     out.append(dict(e="end", **end))
     return out
 
